@@ -31,4 +31,16 @@ PROPS = {
         'assumptions': COMMON_ASSUMPTIONS + ["hash-map iteration order is an oracle reported by the implementation and checked for legality by the model; theorems hold for every legal oracle"],
         'partial': "",
     },
+    'C13': {
+        'suites': [('row', 300, 3000, ''), ('sketch', 300, 3000, ''), ('tlfu', 300, 3000, '')],
+        'rule': "count-min rows (1-8 bytes, arbitrary byte contents, saturation), sketches for widths 0..70, 127, 129, 1000 with random and code-drawn seeds and hashes with planted collisions, TinyLFU for widths 1..40 and larger across resets and clears; raw row bytes, doorkeeper words and w compared with the model after every step; monitor: estimate >= min(count, 15) between resets; non-trivial = every case (each runs >= 10 mutating steps); distinct = distinct operation/observation sequences",
+        'assumptions': COMMON_ASSUMPTIONS + ["hashes are u64 (< 2^64); seeds arbitrary; num_counters <= 2^63 (next_power_of_two overflows beyond)"],
+        'partial': "",
+    },
+    'C14': {
+        'suites': [('bloom', 400, 4000, ''), ('tlfu', 150, 1500, ''), ('bloomfp', 27, 27, '')],
+        'rule': "Bloom filters for capacities 1..20000 and target rates 0.5..0.001 (and explicit probe counts), hashes random / differing only in high bits / only in low bits / near 2^64, adds, contains, contains_or_add, reset, clear; sizes, exponent, probe count, shift and the raw words compared with the model after every step; monitor: no false negative; plus a seeded false-positive measurement on the implementation (27 configurations x 20000 probes)",
+        'assumptions': COMMON_ASSUMPTIONS + ["little-endian byte order (the Rust code addresses bytes inside u64 words)", "Bloom sizing goes through f64 ln/powf/ceil: the harness recomputes (entries, locs) with the same operations and the model checks get_size and the allocated words against them"],
+        'partial': "the false-positive-rate clause is decided by the structural theorems (bits are addressed injectively, add sets exactly the probe positions, contains checks exactly them, the array is the smallest power of two >= the design size) plus a deterministic measurement on the implementation with well-mixed hashes (alarm threshold 10 p + 0.01); a probabilistic theorem about seahash is out of reach",
+    },
 }
